@@ -247,6 +247,8 @@ def cuser(u):
 def cop(o):
     if o[0] == 'set':
         return '(OSet %s %s)' % (cuser(o[1]), cpw(o[2]))
+    if o[0] == 'refused':
+        return '(OSetRefused %s %s)' % (cuser(o[1]), cpw(o[2]))
     if o[0] == 'save':
         return 'OSave'
     if o[0] == 'load':
@@ -261,6 +263,9 @@ def cop(o):
 def action_ops(a):
     """primitive operations (Model.v op) of one action"""
     k = a['a']
+    if k == 'patch' and a.get('refused'):
+        # one password, which the configured system password command refuses: 500, nothing set, nothing saved
+        return [('refused', a['pws'][0][0], a['pws'][0][1])]
     if k == 'patch':
         return [('set', u, pw) for u, pw in a['pws']] + [('save',)]
     if k == 'put':
@@ -293,6 +298,8 @@ class Sim:
 
     def apply(self, o):
         before = dict(self.cur)
+        if o[0] == 'refused':
+            return
         if o[0] == 'set':
             self.cur[o[1]] = o[2]
         elif o[0] == 'save':
@@ -314,33 +321,66 @@ class Sim:
 PW_POOL = ['', 'a', 'secret', 'pass word', 'päss', 'admin', 'x' * 32, '0', 'Tr0ub4dor&3', 'qToggle', ' ', 'e3b0c442']
 
 
-def gen_actions(rng, n):
+SET_CMD = """case "$QS_PASSWORD" in 'R!'*) exit 1;; esac"""   # the system password policy: refuses passwords starting with R!
+
+
+def gen_actions(rng, n, set_cmd=False):
     pool = rng.sample(PW_POOL[1:], 5) + ['']
+    if set_cmd:
+        pool += ['R!bad', 'R!']
     acts = []
+    sim = Sim()
+
+    def push(a):
+        acts.append(a)
+        for o in action_ops(a):
+            sim.apply(o)
+
     if rng.random() < 0.9:
-        acts.append({'a': 'restart'})           # first boot
+        push({'a': 'restart'})           # first boot
     while len(acts) < n:
         r = rng.random()
+        if set_cmd and r < 0.2:
+            # a change the system refuses (must change nothing), now and then followed by a restart
+            push({'a': 'patch', 'pws': [[rng.choice(USERS), rng.choice(['R!bad', 'R!'])]], 'refused': True,
+                  'via': rng.choice(['http', 'direct'])})
+            continue
+        if r < 0.12 and any(v for v in sim.cur.values()):
+            # idempotent re-submissions, then a restart: PUT /device of the hub's own GET /device document (backup restore),
+            # or reset-keeping-the-hashes / PATCH of the passwords already in force
+            k = rng.random()
+            if k < 0.6:
+                push({'a': 'put', 'own': True, 'via': rng.choice(['http', 'http', 'direct'])})
+            else:
+                if k < 0.8:
+                    push({'a': 'reset', 'keep': True})
+                us = [u for u in USERS if sim.cur[u] is not None and not sim.cur[u].startswith('R!')]
+                if us:
+                    push({'a': 'patch', 'pws': [[u, sim.cur[u]] for u in rng.sample(us, rng.randint(1, len(us)))],
+                          'via': rng.choice(['http', 'direct'])})
+            if rng.random() < 0.8:
+                push({'a': 'restart'})
+            continue
         if r < 0.45:
             us = rng.sample(USERS, rng.choice([1, 1, 1, 2, 3]))
-            acts.append({'a': 'patch', 'pws': [[u, rng.choice(pool)] for u in us],
-                         'via': rng.choice(['http', 'http', 'direct'])})
+            ok_pool = [x for x in pool if not x.startswith('R!')]
+            push({'a': 'patch', 'pws': [[u, rng.choice(ok_pool)] for u in us], 'via': rng.choice(['http', 'http', 'direct'])})
         elif r < 0.60:
-            acts.append({'a': 'restart'})
+            push({'a': 'restart'})
         elif r < 0.68:
-            acts.append({'a': 'put', 'via': rng.choice(['http', 'direct'])})
+            push({'a': 'put', 'via': rng.choice(['http', 'direct'])})
         elif r < 0.76:
-            acts.append({'a': 'set', 'u': rng.choice(USERS), 'pw': rng.choice(pool)})
+            push({'a': 'set', 'u': rng.choice(USERS), 'pw': rng.choice([x for x in pool if not x.startswith('R!')])})
         elif r < 0.82:
-            acts.append({'a': 'save'})
+            push({'a': 'save'})
         elif r < 0.87:
-            acts.append({'a': 'load'})
+            push({'a': 'load'})
         elif r < 0.92:
-            acts.append({'a': 'factory'})
+            push({'a': 'factory'})
         elif r < 0.96:
-            acts.append({'a': 'reset', 'keep': True})
+            push({'a': 'reset', 'keep': True})
         else:
-            acts.append({'a': 'reset', 'keep': False})
+            push({'a': 'reset', 'keep': False})
     return acts, pool
 
 
@@ -561,9 +601,46 @@ def gen_stream(rng, skew, pool):
     return {'stream': {'times': times, 'creds': creds, 'offsets': offsets}}
 
 
-def gen_history(rng, n_actions, n_probes, skew, sweep, stream=False):
+def gen_slave(rng, skew, pool):
+    """the slave side: a (simulated) slave whose admin password is changed through the hub's forward API, incl. to the
+    empty password and back, while online and once while offline (provisioning).  After every step: the header the hub
+    sends to the slave, the slave-events endpoint with tokens signed with current / replaced / other passwords, and what
+    GET /devices shows.  -> item"""
+    pws = ['slave-first', 'slave-second', '', 'slave-third', 'slave-4th', 'slave-offline']
+    pool.extend(x for x in pws if x not in pool)
+    now8 = 8 * (T_REAL + rng.randint(0, 10 ** 7)) + rng.randint(0, 7)
+    seq = [pws[1], None, '', pws[3], '', pws[4]]
+    if rng.random() < 0.5:
+        seq = [pws[1], '', None, pws[3]]
+    steps = []
+    cur, prev = pws[0], None
+
+    def events(now8, cur, prev):
+        inow = now8 // 8
+        out = []
+        for label, pw in (('current', cur), ('replaced', prev), ('first', pws[0]), ('empty', ''), ('unknown', 'not-a-slave-pw')):
+            if pw is None or (label != 'current' and pw == cur):
+                continue
+            out.append(['event:' + label, 'Bearer ' + build_token(std_header(), std_claims(None, inow, 'device'), sha_hex(pw))])
+        out.append(['event:consumer-origin', 'Bearer ' + build_token(std_header(), std_claims('admin', inow), sha_hex(cur))])
+        out.append(['event:alg-none', 'Bearer ' + build_token(std_header('none'), std_claims(None, inow, 'device'), sha_hex(cur),
+                                                              sign_alg='none')])
+        return out
+
+    for new in seq:
+        now8 += rng.randint(8, 800)
+        if new is not None:
+            prev, cur = (cur, new) if new != cur else (prev, cur)
+        steps.append({'now8': now8, 'fwd': new, 'events': events(now8, cur, prev)})
+    now8 += rng.randint(8, 800)
+    off = pws[5]
+    steps.append({'now8': now8, 'offline_fwd': off, 'events': events(now8, off, cur)})
+    return {'slave': {'pw0': pws[0], 'steps': steps, 'secrets': [x for x in pws if len(x) >= 6]}}
+
+
+def gen_history(rng, n_actions, n_probes, skew, sweep, stream=False, set_cmd=False, slave=False):
     """-> {'items': [...], 'pool': [...]}; probes carry 'mut' labels; about n_probes probes in total"""
-    acts, pool = gen_actions(rng, n_actions)
+    acts, pool = gen_actions(rng, n_actions, set_cmd)
     sim = Sim()
     items = []
     per_batch = max(4, n_probes // (len(acts) + 1))
@@ -618,7 +695,9 @@ def gen_history(rng, n_actions, n_probes, skew, sweep, stream=False):
         batch(i + 1 == sweep_at)
     if stream:
         items.append(gen_stream(rng, skew, pool))
-    return {'items': items, 'pool': pool}
+    if slave:
+        items.append(gen_slave(rng, skew, pool))
+    return {'items': items, 'pool': pool, 'set_cmd': SET_CMD if set_cmd else None}
 
 
 # ---------------------------------------------------------------------------------------------------------------------
@@ -626,6 +705,7 @@ def gen_history(rng, n_actions, n_probes, skew, sweep, stream=False):
 
 WORKER = r'''
 import sys, json, time, asyncio, logging, hashlib, importlib, warnings
+_real_monotonic = time.monotonic
 CLOCK = [1790000000.0]
 time.time = lambda: CLOCK[0]
 import datetime as _dt
@@ -642,6 +722,10 @@ from qtoggleserver.conf import settings
 settings.persist.driver = 'qtoggleserver.drivers.persist.JSONDriver'
 settings.persist.file_path = None
 settings.frontend.enabled = False
+settings.slaves.enabled = True
+settings.slaves.timeout = 3
+settings.slaves.long_timeout = 3
+settings.slaves.retry_count = 0
 from qtoggleserver import persist
 from qtoggleserver.core import api as core_api
 from qtoggleserver.core import device as core_device
@@ -651,6 +735,204 @@ from qtoggleserver.web import server as web_server
 from tornado.web import Application
 from tornado.httpserver import HTTPServer
 from tornado.netutil import bind_sockets
+
+import io
+from urllib.parse import urlsplit
+from tornado.httpclient import HTTPResponse
+from tornado.httputil import HTTPHeaders
+from qtoggleserver.slaves import devices as slaves_devices
+
+
+def _sha(pw):
+    return hashlib.sha256(pw.encode()).hexdigest()
+
+
+class FakeSlave:
+    """a qToggle device as far as the hub's Slave needs it; it authenticates requests with the REAL parse_auth_header and
+    its own admin password (the receiving side runs the same code)"""
+    pw = ''
+    down = False
+    log = []
+    attrs = {}
+
+    @classmethod
+    def reset(cls, pw):
+        cls.pw, cls.down, cls.log = pw, False, []
+        cls.attrs = {'name': 'c10slave', 'display_name': '', 'version': '1.0', 'api_version': '1.1', 'vendor': 'c10',
+                     'flags': [], 'uptime': 1}
+
+
+class FakeSlaveClient:
+    def __init__(self, *a, **k):
+        pass
+
+    def fetch(self, request, raise_error=True, **kw):
+        return asyncio.ensure_future(self._fetch(request))
+
+    async def _fetch(self, request):
+        await asyncio.sleep(0)
+        if FakeSlave.down:
+            raise ConnectionRefusedError(111, 'Connection refused')
+        path = urlsplit(request.url).path
+        if path.startswith('/api'):
+            path = path[4:]
+        path = path.rstrip('/') or '/'
+        hdr = request.headers.get('Authorization', '')
+        try:
+            usr = core_api_auth.parse_auth_header(hdr, core_api_auth.ORIGIN_CONSUMER,
+                                                  lambda u: _sha(FakeSlave.pw) if u == 'admin' else None)
+            verdict = ['grant', usr]
+        except core_api_auth.AuthError:
+            verdict = ['refuse']
+        except Exception as e:
+            verdict = ['crash', type(e).__name__]
+        FakeSlave.log.append([request.method, path, hdr, verdict, CLOCK[0], FakeSlave.pw])
+        body = json.loads(request.body) if request.body else None
+        if verdict[0] != 'grant':
+            st, pl = 401, {'error': 'authentication-required'}
+        elif path == '/device' and request.method == 'GET':
+            st, pl = 200, dict(FakeSlave.attrs, admin_password='set' if FakeSlave.pw else '', normal_password='',
+                               viewonly_password='')
+        elif path == '/device' and request.method == 'PATCH':
+            for k, v in (body or {}).items():
+                if k == 'admin_password':
+                    FakeSlave.pw = v
+                elif not k.endswith('_password'):
+                    FakeSlave.attrs[k] = v
+            st, pl = 204, None
+        elif path == '/ports' and request.method == 'GET':
+            st, pl = 200, []
+        elif path in ('/webhooks', '/reverse') and request.method == 'GET':
+            st, pl = 200, {'enabled': False}
+        elif path in ('/webhooks', '/reverse'):
+            st, pl = 204, None
+        else:
+            st, pl = 404, {'error': 'no-such-function'}
+        data = b'' if pl is None else json.dumps(pl).encode()
+        return HTTPResponse(request, st, headers=HTTPHeaders({'Content-Type': 'application/json'}), buffer=io.BytesIO(data))
+
+
+slaves_devices.AsyncHTTPClient = FakeSlaveClient
+
+
+def admin_headers():
+    h = A.admin_password_hash
+    hs = [('Content-Type', b'application/json')]
+    if h and h != A.EMPTY_PASSWORD_HASH:
+        hs.append(('Authorization', core_api_auth.make_auth_header('consumer', 'admin', h).encode()))
+    return hs
+
+
+async def wait_slave(conn, name, online, timeout):
+    t0 = _real_monotonic()
+    while _real_monotonic() - t0 < timeout:
+        code, data = await conn.request('GET', '/api/devices', admin_headers())
+        if code == 200:
+            for d in json.loads(data):
+                if d['name'] == name and bool(d['online']) == online:
+                    return True
+        await asyncio.sleep(0.05)
+    return False
+
+
+def scan(doc, secrets):
+    ss = []
+    strings_in(doc, ss)
+    for x in ss:
+        for sec in secrets:
+            if sec in x:
+                return [sec, x[:120]]
+    return None
+
+
+async def do_slave(conn, sc):
+    """-> list of records (see build_shard)"""
+    recs = []
+    if not A.admin_password_hash:
+        return [{'type': 'skip', 'why': 'hub not initialised'}]
+    FakeSlave.reset(sc['pw0'])
+    name = 'c10slave'
+    J = json.dumps
+    code, data = await conn.request('POST', '/api/devices', admin_headers(), J(
+        {'scheme': 'http', 'host': 'c10slave.invalid', 'port': 80, 'path': '/api', 'admin_password': sc['pw0'],
+         'poll_interval': 1, 'listen_enabled': False}).encode())
+    if code != 201 or not await wait_slave(conn, name, True, 8):
+        return [{'type': 'error', 'detail': 'could not add the simulated slave: %s %s' % (code, data[:200])}]
+    k = 0
+    try:
+        for step in sc['steps']:
+            CLOCK[0] = step['now8'] / 8
+            pending = None
+            if 'fwd' in step:
+                body = {'admin_password': step['fwd']} if step['fwd'] is not None else {'display_name': 'c10-%d' % k}
+                code, data = await conn.request('PATCH', '/api/devices/%s/forward/device' % name, admin_headers(), J(body).encode())
+                ok = code in (200, 204)
+                recs.append({'type': 'fwd', 'pw': step['fwd'], 'status': code, 'ok': ok})
+                if ok:
+                    k += 1
+            else:
+                FakeSlave.down = True
+                if not await wait_slave(conn, name, False, 8):
+                    recs.append({'type': 'error', 'detail': 'the slave did not go offline'})
+                    break
+                body = {'admin_password': step['offline_fwd']}
+                code, data = await conn.request('PATCH', '/api/devices/%s/forward/device' % name, admin_headers(), J(body).encode())
+                pending = step['offline_fwd']
+                code1, d1 = await conn.request('GET', '/api/devices', admin_headers())
+                code2, d2 = await conn.request('GET', '/api/devices/%s/forward/device' % name, admin_headers())
+                if code in (200, 204) and code1 == 200 and code2 == 200:
+                    lst, fwd = json.loads(d1), json.loads(d2)
+                    mine = [d for d in lst if d['name'] == name][0]
+                    recs.append({'type': 'doc', 'now8': step['now8'], 'k': k, 'pending': pending,
+                                 'shown': mine['attrs'].get('admin_password'), 'shown_fwd': fwd.get('admin_password'),
+                                 'slave_bit': 'set' if FakeSlave.pw else '', 'leak': scan([lst, fwd], sc['secrets'])})
+                else:
+                    recs.append({'type': 'error', 'detail': 'offline PATCH/GET: %s %s %s' % (code, code1, code2)})
+                FakeSlave.down = False
+                if not await wait_slave(conn, name, True, 15):
+                    recs.append({'type': 'error', 'detail': 'the slave did not come back online'})
+                    break
+                for _ in range(40):     # provisioning runs right after the slave is back
+                    if FakeSlave.pw == pending:
+                        break
+                    await asyncio.sleep(0.05)
+                await asyncio.sleep(0.1)
+                if FakeSlave.pw != pending:
+                    recs.append({'type': 'note', 'detail': 'pending password was not provisioned'})
+                    break
+                k += 1
+                recs.append({'type': 'fwd', 'pw': pending, 'status': 204, 'ok': True, 'provisioned': True})
+                pending = None
+            # (a) the header the hub sends to the slave now
+            n0 = len(FakeSlave.log)
+            code, data = await conn.request('GET', '/api/devices/%s/forward/device' % name, admin_headers())
+            seen = [e for e in FakeSlave.log[n0:] if e[0] == 'GET' and e[1] == '/device']
+            if seen:
+                e = seen[-1]
+                recs.append({'type': 'hubhdr', 'now8': step['now8'], 'k': k, 'hdr': e[2], 'verdict': e[3], 'slave_pw': e[5],
+                             'status': code})
+            else:
+                recs.append({'type': 'error', 'detail': 'forwarded GET /device did not reach the slave (%s)' % code})
+            # (b) the slave-events endpoint of the hub
+            for label, hdr in step['events']:
+                code, data = await conn.request(
+                    'POST', '/api/devices/%s/events' % name,
+                    [('Content-Type', b'application/json'), ('Authorization', hdr.encode('latin-1'))],
+                    J({'type': 'device-update', 'params': {}}).encode())
+                recs.append({'type': 'event', 'now8': step['now8'], 'k': k, 'label': label, 'hdr': hdr, 'status': code})
+            # (c) what the hub shows about the slave
+            code1, d1 = await conn.request('GET', '/api/devices', admin_headers())
+            if code1 == 200:
+                lst = json.loads(d1)
+                mine = [d for d in lst if d['name'] == name][0]
+                recs.append({'type': 'doc', 'now8': step['now8'], 'k': k, 'pending': None,
+                             'shown': mine['attrs'].get('admin_password'), 'shown_fwd': mine['attrs'].get('admin_password'),
+                             'slave_bit': 'set' if FakeSlave.pw else '', 'leak': scan(lst, sc['secrets'])})
+    finally:
+        FakeSlave.down = False
+        await conn.request('DELETE', '/api/devices/%s' % name, admin_headers())
+    return recs
+
 
 USERS = ['admin', 'normal', 'viewonly']
 HASH_NAMES = ['admin_password_hash', 'normal_password_hash', 'viewonly_password_hash']
@@ -725,20 +1007,39 @@ async def do_action(conn, a):
             hd = [('Content-Type', b'application/json'),
                   ('Authorization', core_api_auth.make_auth_header('consumer', 'admin', A.admin_password_hash).encode())]
             code, data = await conn.request('PATCH', '/api/device', hd, json.dumps(body).encode())
-            return {'ok': code == 204, 'detail': 'PATCH /api/device -> %s %s' % (code, data[:200]), 'via': 'http'}
+            want = 500 if a.get('refused') else 204
+            return {'ok': code == want, 'detail': 'PATCH /api/device -> %s %s' % (code, data[:200]), 'via': 'http'}
+        if a.get('refused'):
+            # what patch_device does: set_attrs raises, nothing is saved
+            try:
+                await A.set_attrs(dict(body))
+            except Exception:
+                return {'ok': True, 'via': 'direct'}
+            return {'ok': False, 'detail': 'the password command did not refuse %r' % (body,), 'via': 'direct'}
         await A.set_attrs(dict(body))
         await core_device.save()
     elif k == 'put':
         body = {'name': 'hub%d' % (len(json.dumps(a)) % 7), 'display_name': 'C10', 'admin_password': 'ignored-by-put',
                 'viewonly_password_hash': hashlib.sha256(b'injected').hexdigest(),
                 'admin_password_hash': hashlib.sha256(b'injected').hexdigest()}
+        if a.get('own'):
+            # a backup restored right away: the hub's own GET /device document
+            body = dict(await A.to_json())
+            body.pop('definitions', None)
         if via == 'http':
             hd = [('Content-Type', b'application/json'),
                   ('Authorization', core_api_auth.make_auth_header('consumer', 'admin', A.admin_password_hash).encode())]
+            if a.get('own'):
+                code, data = await conn.request('GET', '/api/device', hd)
+                if code != 200:
+                    return {'ok': False, 'detail': 'GET /api/device -> %s' % code, 'via': 'http'}
+                body = json.loads(data)
+                body.pop('definitions', None)
             code, data = await conn.request('PUT', '/api/device', hd, json.dumps(body).encode())
             return {'ok': code == 204, 'detail': 'PUT /api/device -> %s %s' % (code, data[:200]), 'via': 'http'}
         for f in USERS:
             body.pop('%s_password' % f, None)
+        body.pop('date', None)
         await core_device.reset(preserve_attrs=list(HASH_NAMES))
         await core_device.load()
         await A.set_attrs(body, ignore_extra=True)
@@ -871,6 +1172,7 @@ async def main(script_path, out_path):
             'empty_hash': core_api_auth.EMPTY_PASSWORD_HASH, 'empty_hash_attrs': A.EMPTY_PASSWORD_HASH}
     for hist in script['histories']:
         CLOCK[0] = 1790000000.0
+        settings.core.passwords.set_cmd = hist.get('set_cmd')
         await fresh()
         hres = []
         secrets = set()
@@ -886,6 +1188,11 @@ async def main(script_path, out_path):
                     r = {'ok': False, 'detail': '%s: %s' % (type(e).__name__, e)}
                 r['hashes'] = [getattr(A, n) for n in HASH_NAMES]
                 hres.append({'action': r})
+            elif 'slave' in item:
+                try:
+                    hres.append({'slave': await do_slave(conn, item['slave'])})
+                except Exception as e:
+                    hres.append({'slave': [{'type': 'error', 'detail': '%s: %s' % (type(e).__name__, e)}]})
             elif 'stream' in item:
                 st = item['stream']
                 sres = []
@@ -992,6 +1299,7 @@ def build_shard(hist, hres, info, res, stats):
     ops = []
     cases, meta = [], []
     actions_so_far = []
+    spw0, sops = '', []
     for item, r in zip(hist['items'], hres):
         if 'action' in item:
             a = item['action']
@@ -1005,7 +1313,38 @@ def build_shard(hist, hres, info, res, stats):
             stats['actions'] = stats.get('actions', 0) + 1
             stats['action:%s:%s' % (a['a'], ar.get('via'))] = stats.get('action:%s:%s' % (a['a'], ar.get('via')), 0) + 1
             continue
-        if 'stream' in item:
+        if 'slave' in item:
+            sc = item['slave']
+            spw0 = sc['pw0']
+            plist = []
+            for rec in r['slave']:
+                t = rec['type']
+                if t == 'error':
+                    res['tie_failures'].append({'note': 'slave scenario failed in the harness worker', 'detail': rec['detail']})
+                elif t in ('skip', 'note'):
+                    stats['slave:' + rec.get('why', rec.get('detail', ''))] = stats.get('slave:' + rec.get('why', rec.get('detail', '')), 0) + 1
+                elif t == 'fwd':
+                    stats['slave:forwarded-change'] = stats.get('slave:forwarded-change', 0) + 1
+                    if rec['ok']:
+                        sops.append(rec['pw'])
+                    else:
+                        res['tie_failures'].append({'note': 'forwarded PATCH /device was not accepted', 'status': rec['status']})
+                elif t == 'hubhdr':
+                    plist.append((rec['now8'], {'kind': 5, 'mut': 'slave:hub-header', 'sk': rec['k'], 'ckey': rec['slave_pw'],
+                                                'sops': list(sops)},
+                                  {'hdr': rec['hdr'], 'direct': rec['verdict']}))
+                elif t == 'event':
+                    plist.append((rec['now8'], {'kind': 6, 'mut': 'slave:' + rec['label'], 'sk': rec['k'], 'sops': list(sops)},
+                                  {'hdr': rec['hdr'], 'direct': ['refuse'] if rec['status'] == 401 else ['grant', None],
+                                   'status': rec['status']}))
+                elif t == 'doc':
+                    plist.append((rec['now8'], {'kind': 7, 'mut': 'slave:device-list', 'sk': rec['k'], 'sops': list(sops),
+                                                'ckey': rec['pending'] or '', 'pending': rec['pending'] is not None},
+                                  {'bits7': [rec['shown'], rec['shown_fwd'], rec['slave_bit'], bool(rec['leak'])],
+                                   'leak': rec['leak']}))
+            for _n, p_, _o in plist:
+                p_['slave_spec'] = sc
+        elif 'stream' in item:
             st = item['stream']
             plist = []
             for t8, row in zip(st['times'], r['stream']):
@@ -1019,8 +1358,8 @@ def build_shard(hist, hres, info, res, stats):
         else:
             b = item['batch']
             plist = [(b['now8'], p, o) for p, o in zip(b['probes'], r['batch'])]
-        k = len(ops)
         for now8, p, o in plist:
+            k = p['sk'] if 'sk' in p else len(ops)
             if 'error' in o:
                 if 'make' in p and 'InvalidKeyError' in o['error'] and not o.get('make_key'):
                     # this PyJWT refuses to sign with an empty key: make_auth_header(…, None or '') raises
@@ -1037,7 +1376,7 @@ def build_shard(hist, hres, info, res, stats):
             except UnicodeEncodeError:
                 stats['skipped:non-latin1'] = stats.get('skipped:non-latin1', 0) + 1
                 continue
-            cand = candidate(hdr) if kind in (0, 2) else ''
+            cand = candidate(hdr) if kind in (0, 2, 5, 6) else ''
             pp = pyjwt_parse(cand) if cand else None
             sp = indep_parse(cand) if cand else None
             if pp is not None and not parsed_equal(pp, sp):
@@ -1059,7 +1398,10 @@ def build_shard(hist, hres, info, res, stats):
                     cstr(m['origin']), 'None' if m['username'] is None else '(Some %s)' % cstr(m['username']), cstr(mk))
             try:
                 vk = sorted(set(verifying_keys(pp, keys)) | set(verifying_keys(sp, keys)))
-                if kind == 4:
+                if kind == 7:
+                    b7 = o['bits7']
+                    obs = ['bits'] + [('' if x is None else str(x)) for x in b7[:3]] + [b7[3]]
+                elif kind == 4:
                     obs = ['bits'] + [('' if x is None else x) for x in o['bits']] + [bool(o['leak'])]
                     if any(x not in ('', 'set') for x in o['bits']):
                         obs[4] = True
@@ -1067,6 +1409,8 @@ def build_shard(hist, hres, info, res, stats):
                     obs = ['refuse']
                 else:
                     obs = fix_absent(list(o['direct']), kind, pp)
+                    if kind == 6 and obs[0] == 'grant':
+                        obs[1] = '__absent__'
                 http = o.get('http')
                 if http is not None and http < -1:
                     res['tie_failures'].append({'note': 'unexpected HTTP status from GET /api/access', 'status': -1000 - http,
@@ -1081,8 +1425,9 @@ def build_shard(hist, hres, info, res, stats):
                 multi = coq.lst(o.get('multi', []), lambda dv: '(%s, %s)' % (coq.z(dv[0]), cobs(fix_absent(list(dv[1]), kind, pp))))
                 text = 'HC %d %d %s %s %s %s %s %s %s %s %s %s %s %s %s' % (
                     kind, k, coq.z(now8), cstr(pre), cstr(cand), cstr(suf), 'p' if ps == ss else ps, 'p' if ps == ss else ss,
-                    coq.lst(vk, cstr), cstr((p.get('key') or '') if kind == 2 else ''), issued, cobs(obs),
-                    'None' if http is None else '(Some %s)' % coq.z(http), coq.boolean(bool(cand) and plain_token(cand)), multi)
+                    coq.lst(vk, cstr), cpw(p['ckey']) if 'ckey' in p else cstr((p.get('key') or '') if kind == 2 else ''),
+                    issued, cobs(obs), 'None' if http is None else '(Some %s)' % coq.z(http),
+                    coq.boolean(p['pending'] if kind == 7 else (bool(cand) and plain_token(cand))), multi)
                 if ps == ss:
                     text = 'let p := %s in %s' % (ps, text)
             except Unencodable as e:
@@ -1093,18 +1438,27 @@ def build_shard(hist, hres, info, res, stats):
                          'user': p.get('user'), 'key': p.get('key'), 'make': p.get('make'), 'direct': o.get('direct'),
                          'http': o.get('http'), 'bits': o.get('bits'), 'leak': o.get('leak'),
                          'wellformed': sp is not None, 'make_key': o.get('make_key'),
-                         'multi': [[d, v[0]] for d, v in o.get('multi', [])], 'stream_spec': p.get('stream_spec')})
+                         'multi': [[d, v[0]] for d, v in o.get('multi', [])], 'stream_spec': p.get('stream_spec'),
+                         'set_cmd': hist.get('set_cmd'), 'slave_spec': p.get('slave_spec'), 'bits7': o.get('bits7'), 'status': o.get('status'),
+                         'sops': p.get('sops'), 'slave_pw': p.get('ckey')})
     body = (
         'Definition skew := %s.\n' % coq.z(skew)
         + 'Definition sha : list (string * string) := %s.\n'
         % coq.lst(sorted(sha_tbl.items()), lambda kv: '(%s, %s)' % (cpw(kv[0]), coq.string(kv[1])))
         + 'Definition ops : list op := %s.\n' % coq.lst(ops, cop)
+        + 'Definition spw0 : string := %s.\n' % cpw(spw0)
+        + 'Definition sops : list (option string) := %s.\n' % coq.lst(sops, lambda x: coq.option(x, cpw))
         + 'Definition cases : list hcase := [\n  %s].\n' % ';\n  '.join(cases)
     )
     return body, meta
 
 
 def outcome_of(m):
+    if m['kind'] == 7:
+        b = m['bits7']
+        return 'slave-doc:%s%s' % ('bit' if b[0] in ('', 'set') and b[1] in ('', 'set') else 'VALUE', ':LEAK' if b[3] else '')
+    if m['kind'] == 6:
+        return 'event:%s' % m['status']
     if m['kind'] == 4:
         return 'doc:%s%s' % ('/'.join(x or '-' for x in (m['bits'] or [])), ':LEAK' if m['leak'] else '')
     d = m['direct']
@@ -1151,7 +1505,7 @@ def run_histories(ctx, res, histories, tag):
     distinct = set()
     for meta in metas:
         for m in meta:
-            res['evaluations'] += ((1 if m['direct'] is not None or m['kind'] == 4 else 0) + (1 if m['http'] is not None else 0)
+            res['evaluations'] += ((1 if m['direct'] is not None or m['kind'] in (4, 7) else 0) + (1 if m['http'] is not None else 0)
                                    + len(m.get('multi') or []))
             oc = outcome_of(m)
             stats['outcome:' + oc] = stats.get('outcome:' + oc, 0) + 1
@@ -1172,7 +1526,7 @@ def run_histories(ctx, res, histories, tag):
         return
     t1 = time.time()
     outs = coq.eval_shards(ctx.workdir, 'c10cases_%s' % tag, HEADER, shards,
-                           ['bad_model skew sha ops cases', 'bad_spec skew sha ops cases'])
+                           ['bad_model skew sha ops spw0 sops cases', 'bad_spec skew sha ops spw0 sops cases'])
     res['extra']['coq_eval_wall_s'] = round(res['extra'].get('coq_eval_wall_s', 0) + time.time() - t1, 2)
     for (rc, lists, err), meta in zip(outs, metas):
         if rc != 0 or len(lists) != 2:
@@ -1202,6 +1556,21 @@ def violation(m):
         what = 'a request without Authorization header got %s after %d operations, which contradicts the specification' % (
             oc, len(m['actions']))
         key = {'observe': 'no-header', 'outcome': oc, 'granted': oc != 'http:none'}
+    elif m['kind'] == 7:
+        what = ('GET /devices (or the intercepted GET /devices/<name>/forward/device) shows admin_password=%r / %r for a slave%s%s: '
+                'the API must show "set"/"" only, never a password' % (
+                    m['bits7'][0], m['bits7'][1], ' with a password waiting to be provisioned' if m.get('slave_pw') else '',
+                    ' and contains the plaintext %r' % (m['leak'],) if m['leak'] else ''))
+        key = {'observe': 'slave-device-list', 'leak': bool(m['bits7'][3]), 'pending': bool(m.get('slave_pw'))}
+    elif m['kind'] == 5:
+        what = ('after the forwarded admin-password changes %r the slave (admin password %r) answered %s to the header the hub '
+                'sent with its next request: the hub must sign with the hash of the slave\'s current password' % (
+                    m['sops'], m['slave_pw'], oc))
+        key = {'observe': 'hub-to-slave-header', 'granted': False}
+    elif m['kind'] == 6:
+        what = ('POST /devices/<name>/events with token %r after the forwarded admin-password changes %r answered %s: only the '
+                'slave\'s current admin password may authenticate there' % (m['mut'], m['sops'], m['status']))
+        key = {'observe': 'slave-events', 'token': m['mut'], 'granted': m['status'] != 401}
     elif (m['mut'] or '').startswith('stream:'):
         what = ('make_auth_header(%r, %r, <key>) called at t=%s returned a header that contradicts the specification (issue '
                 'time = clock of the call; verifies for receiver clocks within the skew): verified at once -> %s; at receiver '
@@ -1213,7 +1582,9 @@ def violation(m):
         key = {'observe': 'device-origin' if m['kind'] == 2 else 'consumer', 'mutation': m['mut'],
                'granted': 'granted' in oc or 'http:admin' in oc or 'http:normal' in oc or 'http:viewonly' in oc}
     case = {'kind': m['kind'], 'hdr': m['hdr'], 'now8': m['now8'], 'actions': m['actions'], 'mut': m['mut'], 'key': m['key'],
-            'make': m['make'], 'user': m['user']}
+            'make': m['make'], 'user': m['user'], 'set_cmd': m.get('set_cmd')}
+    if m.get('slave_spec'):
+        case['slave'] = m['slave_spec']
     if m.get('stream_spec'):
         st = m['stream_spec']
         case['stream'] = {'times': [t for t in st['times'] if t <= m['now8']], 'creds': st['creds'], 'offsets': st['offsets']}
@@ -1225,6 +1596,12 @@ def violation(m):
 
 def history_of_case(c):
     items = [{'action': a} for a in c.get('actions', [])]
+    if c.get('slave'):
+        pool = sorted({pw for a in c.get('actions', []) for pw in
+                       ([x[1] for x in a.get('pws', [])] + ([a['pw']] if 'pw' in a else []))} | set(c.get('pool', []))
+                      | {s_['fwd'] for s_ in c['slave']['steps'] if s_.get('fwd')} | {c['slave']['pw0']}
+                      | {s_['offline_fwd'] for s_ in c['slave']['steps'] if s_.get('offline_fwd')})
+        return {'items': items + [{'slave': c['slave']}], 'pool': pool, 'set_cmd': c.get('set_cmd')}
     if c.get('stream'):
         pool = sorted({pw for a in c.get('actions', []) for pw in
                        ([x[1] for x in a.get('pws', [])] + ([a['pw']] if 'pw' in a else []))} | set(c.get('pool', [])))
@@ -1238,7 +1615,7 @@ def history_of_case(c):
     items.append({'batch': {'now8': c['now8'], 'probes': [p]}})
     pool = sorted({pw for a in c.get('actions', []) for pw in
                    ([x[1] for x in a.get('pws', [])] + ([a['pw']] if 'pw' in a else []))} | set(c.get('pool', [])))
-    return {'items': items, 'pool': pool}
+    return {'items': items, 'pool': pool, 'set_cmd': c.get('set_cmd')}
 
 
 def load_corpus():
@@ -1255,7 +1632,7 @@ def load_corpus():
                 by_now.setdefault(p['now8'], []).append({k: v for k, v in p.items() if k != 'now8'})
             for now8, ps in by_now.items():
                 items.append({'batch': {'now8': now8, 'probes': ps}})
-            out.append({'items': items, 'pool': h.get('pool', [])})
+            out.append({'items': items, 'pool': h.get('pool', []), 'set_cmd': h.get('set_cmd')})
         for c in (d['cases'] if 'cases' in d else ([d['case']] if 'case' in d else [])):
             out.append(history_of_case(c))
     return out
@@ -1290,7 +1667,10 @@ def check(ctx, res):
         res['distribution']['corpus_histories'] = len(corpus)
     nh, na, npr = budget(ctx)
     skew = 300
-    hs = [gen_history(ctx.rng, na, npr, skew, sweep=(i % 5 == 0)) for i in range(nh)]
+    # every fourth history runs with settings.core.passwords.set_cmd configured (a policy that refuses some passwords)
+    hs = [gen_history(ctx.rng, na, npr, skew, sweep=(i % 5 == 0), set_cmd=(i % 4 == 3)) for i in range(nh)]
+    # the slave side: forwarded admin-password changes on a simulated slave (own shards)
+    hs += [gen_history(ctx.rng, 3, 10, skew, sweep=False, slave=True) for _ in range(ctx.n(1, 4))]
     # short histories that end in a stream of headers issued over > 2 x skew with the clock advancing (own shards)
     hs += [gen_history(ctx.rng, 3, 12, skew, sweep=False, stream=True) for _ in range(ctx.n(1, 8))]
     run_histories(ctx, res, hs, 'gen')
@@ -1299,7 +1679,8 @@ def check(ctx, res):
 def search(ctx, res):
     """the proof or the tie broke: look harder for a concrete failing input (spec oracle vs implementation)"""
     nh, na, npr = budget(ctx)
-    hs = [gen_history(ctx.rng, na, npr * 2, 300, sweep=(i % 3 == 0), stream=(i % 5 == 1))
+    hs = [gen_history(ctx.rng, na, npr * 2, 300, sweep=(i % 3 == 0), stream=(i % 5 == 1), set_cmd=(i % 4 == 3),
+                      slave=(i % 10 == 2))
           for i in range(nh * (2 if ctx.tier == 'quick' else 1))]
     run_histories(ctx, res, hs, 'search')
 
